@@ -4,6 +4,7 @@ import (
 	"bufio"
 	"encoding/json"
 	"fmt"
+	"hash/crc32"
 	"math/rand"
 	"runtime"
 	"runtime/debug"
@@ -48,6 +49,7 @@ type world struct {
 	markKeys []interface{}
 	first    map[string]string // C14: first output per key
 	history  []M               // ops executed so far (for the reference rebuild of C10)
+	salt     int               // per-scenario salt (from its id) for choices that must repeat when the scenario is re-run alone
 	version  int               // bumped by every op that may change a table (C14 key)
 	facets   map[string]bool
 
@@ -177,6 +179,7 @@ func runScenario(out *bufio.Writer, id string, ops []M, facets map[string]bool, 
 
 func runScenarioIn(w *world, out *bufio.Writer, id string, ops []M, facets map[string]bool, every bool, sub *substitution) {
 	w.facets = facets
+	w.salt = int(crc32.ChecksumIEEE([]byte(id)) % 1000)
 	writeLine(out, M{"op": M{"op": "reset", "id": id, "reg": registrySnapshot(), "defdec": decorOfWrapper(texttable.New())}})
 	for i, op := range ops {
 		if sub != nil {
